@@ -30,4 +30,12 @@ TEXT["C12"] = dict(engine="kani",
    level="Complete proof that get_broadcast_flag() <=> flags & 0x8000 != 0.",
    note="Frame construction / codec round trip clauses: see evidence for what is under contract in this revision.")
 
+TEXT["C05"] = dict(engine="verus+kani",
+   technique="Verus no-panic/overflow/bounds/termination obligations on the extracted decoders (unbounded input) + Kani complete harness for Ipv4Subnet",
+   level="Unbounded deductive proof: every index, slice, unwrap, arithmetic operation, assert!/unreachable! and every loop/recursion (decreases) in the decoders under contract "
+         "is discharged for all byte strings of all lengths: pktparser::Buffer, all of dns/parse.rs (PktParser incl. compression-pointer recursion, EdnsParser), EdnsData accessors, "
+         "dhcppkt::{parse,parse_options,null_terminated}, every LLDP Deserialise::from_wire. See evidence.coverage.functions_under_contract for the exact list.",
+   note="Assumed: vstd std specs, stubs listed in evidence.assumptions (String::from_utf8, from_be_bytes wrappers, HashMap<DhcpOption,_> as a map, format! text dropped). "
+        "Not decided: process-level liveness after hostile input; decoders not listed in functions_under_contract.")
+
 NA = {}
